@@ -1,0 +1,15 @@
+//go:build verif
+
+package resolver
+
+// Contracts checked by /verif (govc). Comment-only file: it adds no code.
+
+// ---- C18: dependency resolution against an index (or a tag list) locks each dependency to the first
+// entry, in list order, that parses as a version, is downloadable (has a URL, unless OCI) and satisfies
+// the range — the list is sorted newest first by loadIndex, so that is the highest such version
+
+//@ func (*Resolver).Resolve
+//@   props C18
+//@   requires r != nil && (forall j int :: 0 <= j && j < len(reqs) ==> reqs[j] != nil)
+//@   loop 3 invariant [no-earlier-entry-satisfies-the-range] forall q int :: 0 <= q && q < #iter ==> !(parses(#range[q].Metadata.Version) && (isOCI(d.Repository) || len(#range[q].URLs) > 0) && sat(consOf(*constraint), #range[q].Metadata.Version))
+//@   assert [locks-exactly-the-entry-that-satisfied] at "locked[i].Version = " locked[i].Version == ver.Metadata.Version && parses(ver.Metadata.Version) && (isOCI(d.Repository) || len(ver.URLs) > 0) && sat(consOf(*constraint), ver.Metadata.Version)
